@@ -60,6 +60,16 @@ macro_rules | `(tactic| pres_prim) => `(tactic| with_reducible first
   | exact mpres_dropGuard _ | exact mpres_readUpvalueLoc _ | exact mpres_guardVal _
   | exact mpres_unguardVal _)
 
+section memrows
+variable {R : VmState → VmState → Prop} [MemFrame R]
+theorem mpres_guardRows (es : List (Val × Val)) : Pres R (guardRows es) := by
+  unfold guardRows; pres_auto
+theorem mpres_unguardRows (es : List (Val × Val)) : Pres R (unguardRows es) := by
+  unfold unguardRows; pres_auto
+end memrows
+macro_rules | `(tactic| pres_prim) => `(tactic| with_reducible first
+  | exact mpres_guardRows _ | exact mpres_unguardRows _)
+
 section memprims2
 variable {R : VmState → VmState → Prop} [MemFrame R]
 theorem mpres_nativeConv (name : String) : Pres R (nativeConv name) := by
